@@ -115,10 +115,18 @@ func pkgConst(p *packages.Package, name string) constant.Value {
 }
 
 func funcDecl(p *packages.Package, name string) *ast.FuncDecl {
-	for _, f := range p.Syntax {
-		for _, d := range f.Decls {
-			if fd, ok := d.(*ast.FuncDecl); ok && fd.Name.Name == name && fd.Recv == nil {
-				return fd
+	if recordPats != nil {
+		recordDecls[relPkg(p.PkgPath)+"."+name] = true
+	}
+	for _, nm := range []string{name, declAlias[relPkg(p.PkgPath)+"."+name]} {
+		if nm == "" {
+			continue
+		}
+		for _, f := range p.Syntax {
+			for _, d := range f.Decls {
+				if fd, ok := d.(*ast.FuncDecl); ok && fd.Name.Name == nm && fd.Recv == nil {
+					return fd
+				}
 			}
 		}
 	}
@@ -126,18 +134,26 @@ func funcDecl(p *packages.Package, name string) *ast.FuncDecl {
 }
 
 func methodDecl(p *packages.Package, recv, name string) *ast.FuncDecl {
-	for _, f := range p.Syntax {
-		for _, d := range f.Decls {
-			fd, ok := d.(*ast.FuncDecl)
-			if !ok || fd.Name.Name != name || fd.Recv == nil || len(fd.Recv.List) == 0 {
-				continue
-			}
-			t := fd.Recv.List[0].Type
-			if st, ok := t.(*ast.StarExpr); ok {
-				t = st.X
-			}
-			if id, ok := t.(*ast.Ident); ok && id.Name == recv {
-				return fd
+	if recordPats != nil {
+		recordDecls[relPkg(p.PkgPath)+"."+recv+"."+name] = true
+	}
+	for _, nm := range []string{name, declAlias[relPkg(p.PkgPath)+"."+recv+"."+name]} {
+		if nm == "" {
+			continue
+		}
+		for _, f := range p.Syntax {
+			for _, d := range f.Decls {
+				fd, ok := d.(*ast.FuncDecl)
+				if !ok || fd.Name.Name != nm || fd.Recv == nil || len(fd.Recv.List) == 0 {
+					continue
+				}
+				t := fd.Recv.List[0].Type
+				if st, ok := t.(*ast.StarExpr); ok {
+					t = st.X
+				}
+				if id, ok := t.(*ast.Ident); ok && id.Name == recv {
+					return fd
+				}
 			}
 		}
 	}
@@ -165,3 +181,6 @@ func firstCompositeLit(n ast.Node) *ast.CompositeLit {
 }
 
 func trimQ(s string) string { return strings.Trim(s, `"`) }
+
+// recordDecls (freeze mode): declarations looked up by name, frozen as anchors too
+var recordDecls = map[string]bool{}
